@@ -144,9 +144,11 @@ def check_case(case):
             elif route == 2:      # omitted: 100% of the caller's size
                 attrs = ""
                 kw.update(width=float(ew), height=float(eh))
-            elif route == 3:      # caller size given as lengths
+            elif route == 3:      # caller size given as lengths: strings or Length objects
                 attrs = ""
                 kw.update(width=unit_len(ew, k), height=unit_len(eh, k + 1))
+                if (k // 9) % 2:
+                    kw.update(width=svg.Length(kw["width"]), height=svg.Length(kw["height"]))
             elif route == 5:      # one dimension from the caller, the other from an attribute
                 attrs = 'height="%s"' % unit_len(eh, k)
                 kw.update(width=float(ew))
